@@ -57,6 +57,10 @@ CHECKS = {
    tech="explicit-state exploration of the byte-at-a-time reader over all strings up to a length bound, locations checked against an independent tokenizer",
    text="The reader is a state machine (ParsePartialResult::push); every string of length <= 5 (thorough 7) over a 16-symbol alphabet covering every lexical class, and every sequence of <= 4 (5) token/separator units over 15 tokens x 4 separators (multi-line, comments, both quote styles with escapes, #-forms, dotted tails), is pushed byte by byte from the initial state, finalized and also parsed whole. An independent tokenizer gives every leaf's exact span and every list's parentheses; whole vs byte-wise results are compared including locations; error locations must be in bounds. states = strings reached, transitions = push calls.",
    note="Trusted: the harness tokenizer (its lexical rules are the reader's documented ones; accepted texts whose shape it does not model are counted and make no claim). Compiler-error locations are checked in C14."),
+ "C17": dict(engine="progmc", cat="exploration", ref="DESIGN.md 4/C17",
+   tech="exhaustive enumeration of usage-class assignments, exhaustive non-interference check over all valuation pairs",
+   text="All 8^k assignments of 8 usage classes to k <= 3 (thorough 4) lower-case parameters, in flat / nested / dotted parameter lists and 2 sigils; for each parameter the unused-argument check reports, every pair of valuations differing only in that parameter (3-value alphabet, all combinations of the others) is run on the compiled program and must give identical outcomes.",
+   note="Trusted: clvmr. Only soundness of the report is claimed by the property; which used parameters are (not) reported is counted for information."),
  "C20": dict(engine="optab", cat="exploration", ref="DESIGN.md 4/C20",
    tech="complete enumeration of the finite operator tables plus one compiled-and-run program per operator",
    text="The property's domain is finite (49 names x 3 versions, 259 opcodes) and is enumerated completely on every run: inverse and monotonicity clauses on the tables, assembler/disassembler per opcode and version, and for each operator a hand-assembled program under the consensus evaluator compared with the tools' runner, the stepping evaluator (4 spellings) and code from the modern (cl21, cl24, optimise on/off) and classic compilers.",
